@@ -21,7 +21,10 @@ def store_check(run, mc, suites, level='model_checking'):
     for m in mc:
         if os.environ.get('VERIF_SKIP_MC'):
             break
-        eng.model_check(**m)
+        if m.get('lemma'):
+            eng.push_lemma(**{k: v for k, v in m.items() if k != 'lemma'})
+        else:
+            eng.model_check(**m)
     for s in suites:
         s = dict(s)
         hcfgs = s.pop('hcfgs', HCFGS_VARIETY)
@@ -48,7 +51,9 @@ LIFE3 = ['close_active', 'restore_active', 'create_active']
 
 def check_C01(run):
     q = Q(run)
-    mc = [dict(name='mc-c01', consts=dict(Keys='{1}', Metas='{0}', MaxRecs='0'), max_ops=3 if q else 4, max_blob=2)]
+    mc = [dict(lemma=True, maxlen=7 if q else 9, maxts=3),
+          dict(name='mc-c01', consts=dict(Keys='{1, 2}', Metas='{0}', MaxRecs='0'), max_ops=3 if q else 4, max_blob=2,
+               acts=['write', 'delete', 'close_active', 'restore_active', 'restart'], damages=('keep', 'lose'))]
     suites = [
         dict(name='2k-switch', consts=dict(Keys='{1, 2}', MaxTs='2'), genlen=4,
              acts=['write', 'delete', 'restart'] + LIFE3,
@@ -65,7 +70,116 @@ def check_C01(run):
     return store_check(run, mc, suites)
 
 
-CHECKS = {'C01': check_C01}
+
+
+def check_C02(run):
+    q = Q(run)
+    mc = [dict(name='mc-c02', consts=dict(Keys='{1}', Metas='{0, 1, 2}', MaxRecs='0'), max_ops=3 if q else 4, max_blob=2,
+               acts=['write', 'delete', 'close_active', 'restore_active']),
+          dict(name='mc-c02-nodup', consts=dict(Keys='{1}', Metas='{0, 1}', MaxRecs='0', AllowDup='FALSE'), max_ops=3 if q else 4,
+               max_blob=2, acts=['write', 'delete', 'close_active'])]
+    suites = [
+        dict(name='meta', consts=dict(Keys='{1}', MaxTs='2', Metas='{0, 1, 2}'), genlen=4,
+             acts=['write', 'delete', 'close_active', 'restore_active'], nkeys=1,
+             sample=(1, 16) if q else (1, 1)),
+        dict(name='nodup', consts=dict(Keys='{1}', MaxTs='2', Metas='{0, 1}', AllowDup='FALSE'), genlen=4 if q else 5,
+             acts=['write', 'delete', 'close_active'], nkeys=1, hcfg_overrides=dict(allow_dup=False),
+             sample=(1, 4) if q else (1, 2)),
+        dict(name='2k-placement', consts=dict(Keys='{1, 2}', MaxTs='2'), genlen=4 if q else 5,
+             acts=['write', 'delete', 'close_active', 'create_active', 'restore_active'], nkeys=2,
+             sample=(1, 12) if q else (1, 4)),
+        dict(name='sim', consts=dict(Keys='{1, 2}', MaxTs='3', Metas='{0, 1, 2}'), genlen=24,
+             acts=['write', 'delete', 'restart', 'force_update'] + LIFE3,
+             restarts_set=store.restarts(dmgs=('keep', 'lose')), nkeys=2,
+             simulate=300 if q else 20000, workers=1 if q else 8),
+        dict(name='sim-nodup', consts=dict(Keys='{1, 2}', MaxTs='3', Metas='{0, 1, 2}', AllowDup='FALSE'), genlen=20,
+             acts=['write', 'delete', 'restart'] + LIFE3, hcfg_overrides=dict(allow_dup=False),
+             restarts_set=store.restarts(dmgs=('keep',)), nkeys=2,
+             simulate=150 if q else 10000, workers=1 if q else 8),
+    ]
+    return store_check(run, mc, suites)
+
+
+def check_C03(run):
+    q = Q(run)
+    mc = [dict(name='mc-c03', consts=dict(Keys='{1}', Metas='{0}', MaxRecs='0'), max_ops=3 if q else 4, max_blob=2,
+               acts=['write', 'delete', 'close_active', 'restore_active', 'dump_idx', 'restart']),
+          dict(name='mc-c03-full', consts=dict(Keys='{1}', MaxTs='1', Metas='{0}', MaxRecs='0'), max_ops=2 if q else 3, max_blob=2,
+               acts=['write', 'delete', 'close_active', 'create_active', 'dump_idx', 'restart_full'])]
+    suites = [
+        dict(name='restart-2k', consts=dict(Keys='{1, 2}', MaxTs='2'), genlen=4,
+             acts=['write', 'delete', 'close_active', 'restore_active', 'restart'],
+             restarts_set=store.restarts(), nkeys=2, sample=(1, 40) if q else (1, 2)),
+        dict(name='restart-stale', consts=dict(Keys='{1}', MaxTs='2', DeferredFires='FALSE'), genlen=5,
+             acts=['write', 'delete', 'close_active', 'restart'], hcfg_overrides=dict(deferred_fires=False),
+             restarts_set=store.restarts(dmgs=('keep', 'stale')), nkeys=1, sample=(1, 10) if q else (1, 1)),
+        dict(name='sim', consts=dict(Keys='{1, 2}', MaxTs='3', Metas='{0, 1}'), genlen=24,
+             acts=['write', 'delete', 'restart', 'force_update', 'create_active', 'close_active', 'restore_active'],
+             restarts_set=store.restarts(), nkeys=2, simulate=300 if q else 20000, workers=1 if q else 8),
+    ]
+    return store_check(run, mc, suites)
+
+
+LIFE_ALL = ['close_active', 'create_active', 'restore_active', 'force_update', 'close_bg', 'create_bg',
+            'restore_bg', 'free_excess', 'fsync', 'offload']
+
+
+def check_C04(run):
+    q = Q(run)
+    mc = [dict(name='mc-c04', consts=dict(Keys='{1}', MaxTs='1' if q else '2', Metas='{0}', MaxRecs='0'), max_ops=2 if q else 3, max_blob=2,
+               acts=['write', 'delete', 'close_active', 'create_active', 'restore_active', 'force_update', 'close_bg',
+                     'create_bg', 'restore_bg', 'free_excess', 'dump_idx'])]
+    suites = [
+        dict(name='life-1k', consts=dict(Keys='{1}', MaxTs='2', OffloadLevels='{0, 1}'), genlen=4 if q else 5,
+             acts=['write', 'delete'] + LIFE_ALL, preds=('always', 'never', 'ifactive'), nkeys=1,
+             sample=(1, 12) if q else (1, 4)),
+        dict(name='life-async', consts=dict(Keys='{1}', MaxTs='2', Quiesce='FALSE'), genlen=5,
+             acts=['write', 'delete', 'close_active', 'restore_active', 'dump_idx', 'force_update'], nkeys=1,
+             hcfgs=[dict(ks=4, bloom='small', group=2, rt='mt', wait=False), dict(ks=8, bloom='off', group=3, rt='ct', wait=False)],
+             sample=(1, 20) if q else (1, 2)),
+        dict(name='sim', consts=dict(Keys='{1, 2}', MaxTs='3', Metas='{0, 1}', OffloadLevels='{0, 1, 2}'), genlen=30,
+             acts=['write', 'delete'] + LIFE_ALL, preds=('always', 'never', 'ifactive'), nkeys=2,
+             simulate=300 if q else 20000, workers=1 if q else 8),
+    ]
+    return store_check(run, mc, suites)
+
+
+def check_C13(run):
+    q = Q(run)
+    mc = [dict(name='mc-c13', consts=dict(Keys='{1}', MaxTs='1', Metas='{0}', MaxRecs='2'), max_ops=3 if q else 4, max_blob=3,
+               acts=['write', 'delete', 'close_active', 'create_active', 'restore_active', 'force_update', 'close_bg',
+                     'create_bg', 'restore_bg', 'age'])]
+    suites = [
+        dict(name='bg-overflow', consts=dict(Keys='{1}', MaxTs='1', MaxRecs='2'), genlen=3 if q else 4,
+             acts=['write', 'delete', 'close_active', 'create_active', 'restore_active', 'force_update',
+                   'close_bg', 'create_bg', 'restore_bg', 'free_excess'],
+             preds=('always', 'never', 'ifactive'), nkeys=1, suffix=1, hcfg_overrides=dict(max_recs=2),
+             sample=(1, 6) if q else (1, 1)),
+    ]
+    return store_check(run, mc, suites)
+
+
+def check_C15(run):
+    q = Q(run)
+    mc = [dict(name='mc-c15', consts=dict(Keys='{1}', MaxTs='1', Metas='{0}', MaxRecs='0'), max_ops=3 if q else 4, max_blob=2,
+               acts=['write', 'delete', 'close_active', 'create_active', 'restore_active', 'force_update', 'restart'],
+               damages=('keep', 'lose'))]
+    suites = [
+        dict(name='counts-2k', consts=dict(Keys='{1, 2}', MaxTs='2'), genlen=4,
+             acts=['write', 'delete', 'close_active', 'restore_active', 'create_active', 'force_update', 'restart'],
+             restarts_set=store.restarts(dmgs=('keep', 'lose')), nkeys=2, sample=(1, 30) if q else (1, 2)),
+        dict(name='counts-holes', consts=dict(Keys='{1}', MaxTs='1'), genlen=6 if q else 7,
+             acts=['write', 'delete', 'close_active', 'restore_active', 'create_active', 'restart'],
+             restarts_set=store.restarts(gs=(True,), dmgs=('keep',)), nkeys=1, sample=(1, 20) if q else (1, 2)),
+        dict(name='sim', consts=dict(Keys='{1, 2}', MaxTs='2', Metas='{0, 1}'), genlen=30,
+             acts=['write', 'delete', 'restart'] + LIFE_ALL[:8], preds=('always', 'ifactive'), nkeys=2,
+             restarts_set=store.restarts(dmgs=('keep', 'lose')), simulate=300 if q else 20000, workers=1 if q else 8),
+    ]
+    return store_check(run, mc, suites)
+
+
+CHECKS = {'C01': check_C01, 'C02': check_C02, 'C03': check_C03, 'C04': check_C04, 'C13': check_C13, 'C15': check_C15}
+
 
 
 def main(argv):
